@@ -779,7 +779,64 @@ def st_async_iter_case(draw: st.DrawFn, tier: str) -> dict:
 # timed-out call must be returned by a later one.
 
 
+def _run_tls_poll_case(case: dict) -> Outcome:
+    """StreamEndpoint.recv_packet(timeout=0) over the blocking TLS transport: a packet spread over several TLS records
+    which have ALL arrived on the socket must be returned by the polling call (SSLSocket.recv() returns at most one
+    record per call, so a short read says nothing about the socket being drained)."""
+    from easynetwork.lowlevel.api_sync.transports.socket import SSLStreamTransport
+
+    from .. import tlsharness, tlspeer
+    from ..synctls import TLSPipe, selector_factory_for
+
+    world = World()
+    peer = tlspeer.TLSPeer("server" if case["sut_role"] == "client" else "client", case["version"])
+    pipe = TLSPipe(world, peer, [1 << 20])
+    ctx, kw = tlsharness.make_sut_kwargs(case["sut_role"], case["version"])
+    line = ("p:" + "x" * case["size"]).encode() + b"\n"
+    n = case["records"]
+    cuts = [len(line) * i // n for i in range(1, n)]
+    parts = [line[a:b] for a, b in zip([0] + cuts, cuts + [len(line)]) if b > a]
+    try:
+        with virtual_clock(world):
+            try:
+                transport = SSLStreamTransport(pipe.sut_sock, ctx, 1.0, handshake_timeout=1e7, shutdown_timeout=5.0, selector_factory=selector_factory_for(pipe), **kw)
+                proto: Any = BufferedStreamProtocol(StringLineSerializer()) if case["buffered"] else StreamProtocol(StringLineSerializer())
+                endpoint = StreamEndpoint(transport, proto, max_recv_size=case["max_recv_size"])
+                for part in parts:
+                    peer.write(part)
+                    for _ in range(1000):  # one record per write, all of them delivered to the socket
+                        if not pipe.pump():
+                            break
+                t0 = world.now
+                try:
+                    got = endpoint.recv_packet(timeout=0)
+                except TimeoutError:
+                    raise Violation(
+                        "gave-up-early",
+                        f"recv_packet(timeout=0) over TLS raised TimeoutError although the whole packet ({len(line)} bytes in {len(parts)} TLS "
+                        f"records) had already arrived on the socket",
+                        mode="endpoint-poll",
+                        short_read=True,
+                        records=len(parts),
+                        max_recv_size=case["max_recv_size"],
+                    ) from None
+                if got != line[:-1].decode():
+                    raise Violation("wrong-packet", f"got {got!r:.60}")
+                if world.now != t0:
+                    raise Violation("zero-timeout-blocked", f"timeout=0 waited {world.now - t0}")
+                endpoint.close()
+            except HarnessHang as exc:
+                raise Violation("hang", f"blocking TLS poll hangs: {exc}") from exc
+            except SpinGuard as exc:
+                raise Violation("hang", f"blocking TLS poll spins: {exc}") from exc
+    finally:
+        pipe.close()
+    return Outcome(nontrivial=len(parts) >= 2, classes=("endpoint-poll", f"records-{len(parts)}", f"role-{case['sut_role']}", f"tls-{case['version']}"))
+
+
 def run_tls_case(case: dict) -> Outcome:
+    if case.get("mode") == "endpoint-poll":
+        return _run_tls_poll_case(case)
     from easynetwork.lowlevel.api_sync.transports.socket import SSLStreamTransport
 
     from .. import tlsharness, tlspeer
@@ -871,6 +928,16 @@ def run_tls_case(case: dict) -> Outcome:
 
 @st.composite
 def st_tls_case(draw: st.DrawFn, tier: str) -> dict:
+    if draw(st.integers(0, 3)) == 0:
+        return {
+            "mode": "endpoint-poll",
+            "sut_role": draw(st.sampled_from(["client", "server"])),
+            "version": draw(st.sampled_from(["1.2", "1.3"])),
+            "size": draw(st.sampled_from([3, 100, 5000, 40000])),
+            "records": draw(st.integers(1, 4)),
+            "buffered": draw(st.booleans()),
+            "max_recv_size": draw(st.sampled_from([256, 16384, 65536])),
+        }
     n = draw(st.integers(1, 5))
     times: list[float] = []
     t = 0.0
